@@ -2,8 +2,10 @@
 //!   implrun gen <ID> --seed S --n N [--thorough] --cases FILE --impl FILE
 //!   implrun run <ID> --cases FILE --impl FILE        (re-run given case lines, e.g. the corpus)
 mod common;
+mod probe;
 mod c06;
 mod c11;
+mod c13;
 mod c16;
 mod c19;
 
@@ -15,6 +17,7 @@ fn gen_all(id: &str, seed: u64, n: usize, thorough: bool) -> Vec<String> {
         "C19" => c19::gen_cases(seed, n, thorough),
         "C11" => c11::gen_cases(seed, n, thorough),
         "C16" => c16::gen_cases(seed, n, thorough),
+        "C13" => c13::gen_cases(seed, n, thorough),
         _ => panic!("unknown property {}", id),
     }
 }
@@ -25,6 +28,7 @@ fn run_line(id: &str, line: &str) -> String {
         "C19" => c19::run_line(line),
         "C11" => c11::run_line(line),
         "C16" => c16::run_line(line),
+        "C13" => c13::run_line(line),
         _ => "UNKNOWN-PROPERTY".to_string(),
     });
     match r {
@@ -38,6 +42,10 @@ fn main() {
     if args.len() < 3 {
         eprintln!("usage: implrun gen|run <ID> [--seed S] [--n N] [--thorough] --cases F --impl F");
         std::process::exit(2);
+    }
+    if args[1] == "probe" {
+        probe::main(&args[2..]);
+        return;
     }
     let mode = args[1].as_str();
     let id = args[2].as_str();
